@@ -16,6 +16,9 @@ By `decide` on the tables regenerated from the source at every run:
 -/
 import CBV.Lemmas.C19
 import CBV.Lemmas.C19Geo
+import CBV.Lemmas.C19Rim
+import Mathlib.Analysis.Real.Sqrt
+import Mathlib.Tactic.NormNum
 import CBV.Gen.TC19
 
 namespace CBV.C19
@@ -632,6 +635,86 @@ theorem T_C19_chops_address_shell :
     ((CBV.Gen.c19GridSpecs.map (·.1)).filter (fun n => (sketchFromSource n).isSome)).all chopsOk = true := by decide +kernel
 
 example : 12 ≤ ((CBV.Gen.c19GridSpecs.map (·.1)).filter (fun n => (sketchFromSource n).isSome)).length := by decide +kernel
+
+
+/-! ### round 6c — the rim of the disk sketches on their exact positions, for every placement -/
+
+section rim
+open CBV.C11 (P3 DiskCls diskPts DiskOK)
+
+/-- the combinatorial half, decided on the `quad_map` regenerated from the source: the `shell` the source's `grid` expression gives
+    is the set of faces with a side whose two ends are both positions from `get_outer_points`; every index of a quad is a position -/
+def rimEdgeOk (cl : DiskCls) : Bool :=
+  match lookup cl.name CBV.Gen.c19QuadMaps, sketchFromSource cl.name with
+  | some quads, some s =>
+      s.shell == shellByEdges (fun i => decide (rimStart cl ≤ i)) quads && s.n == quads.length &&
+      quads.all (fun q => (List.range 4).all (fun j => decide (q.getD j 0 < nPositions cl)))
+  | _, _ => false
+
+theorem T_C19_rim_edges_table :
+    [DiskCls.oneCore, .quarter, .half, .fourCore].all rimEdgeOk = true := by decide +kernel
+
+/-- **OneCoreDisk / QuarterDisk / HalfDisk / FourCoreDisk in ANY placement** (centre `c`, radius point `rp ≠ c`, unit normal `u`
+    perpendicular to the radius; any ordered field, `h` with `2h² = 1` — ℝ with h = cos π/4 —, the class's ratios within `DiskOK`):
+    a face is in `shell` iff it has a side both ends of which lie on the circle through the radius point
+    (squared distance from the centre = r²), the positions being the ones the class's constructor computes -/
+theorem T_C19_shell_iff_rim_edge {K : Type} [Field K] [LinearOrder K] [IsStrictOrderedRing K]
+    (cl : DiskCls) (c rp u : P3 K) (h k dg : K) (hok : DiskOK cl h k dg) (hh : h * h + h * h = 1)
+    (hu : P3.nsq u = 1) (hp : P3.dot u (P3.sub rp c) = 0) (hr : 0 < P3.nsq (P3.sub rp c))
+    (quads : List (List Nat)) (s : SketchIdx)
+    (hq : lookup cl.name CBV.Gen.c19QuadMaps = some quads) (hs : sketchFromSource cl.name = some s) (f : Nat) (hf : f < s.n) :
+    f ∈ s.shell ↔
+      ∃ j, j < 4 ∧
+        P3.nsq (P3.sub ((diskPts cl c rp u h k dg).getD ((quads.getD f []).getD j 0) c) c) = P3.nsq (P3.sub rp c) ∧
+        P3.nsq (P3.sub ((diskPts cl c rp u h k dg).getD ((quads.getD f []).getD ((j + 1) % 4) 0) c) c) = P3.nsq (P3.sub rp c) := by
+  have hT : rimEdgeOk cl = true := by
+    have := T_C19_rim_edges_table
+    simp only [List.all_cons, List.all_nil, Bool.and_true, Bool.and_eq_true] at this
+    cases cl
+    · exact this.1
+    · exact this.2.1
+    · exact this.2.2.1
+    · exact this.2.2.2
+  simp only [rimEdgeOk, hq, hs, Bool.and_eq_true, beq_iff_eq, List.all_eq_true, List.mem_range, decide_eq_true_eq] at hT
+  obtain ⟨⟨hshell, hn⟩, hidx⟩ := hT
+  have hfl : f < quads.length := hn ▸ hf
+  have hmem : quads.getD f [] ∈ quads := by
+    rw [List.getD_eq_getElem?_getD, List.getElem?_eq_getElem hfl]
+    exact List.getElem_mem hfl
+  rw [hshell]
+  simp only [shellByEdges, List.mem_filter, List.mem_range]
+  rw [edgeOn_iff (fun i => P3.nsq (P3.sub ((diskPts cl c rp u h k dg).getD i c) c) = P3.nsq (P3.sub rp c))
+    (fun i => decide (rimStart cl ≤ i)) (nPositions cl)
+    (fun i hi => by
+      rw [onCircle_iff cl c rp u h k dg hok hh hu hp hr i hi]
+      simp)
+    (quads.getD f []) (fun j hj => hidx _ hmem j hj)]
+  exact ⟨fun h => h.2, fun h => ⟨hfl, h⟩⟩
+
+/-- non-vacuity of the hypotheses: over ℝ with `h = √2/2`, ratios 4/5 and 9/10, a disk about (1, 2, 3) with radius point (1, 4, 3)
+    and normal (0, 0, 1) -/
+example : ∃ h : ℝ, h * h + h * h = 1 ∧ DiskOK DiskCls.fourCore h (4 / 5) (9 / 10) ∧ DiskOK DiskCls.oneCore h (4 / 5) (9 / 10) ∧
+    P3.nsq (⟨0, 0, 1⟩ : P3 ℝ) = 1 ∧ P3.dot (⟨0, 0, 1⟩ : P3 ℝ) (P3.sub ⟨1, 4, 3⟩ ⟨1, 2, 3⟩) = 0 ∧
+    0 < P3.nsq (P3.sub (⟨1, 4, 3⟩ : P3 ℝ) ⟨1, 2, 3⟩) := by
+  have hs : Real.sqrt 2 * Real.sqrt 2 = 2 := Real.mul_self_sqrt (by norm_num)
+  have hs0 : 0 < Real.sqrt 2 := Real.sqrt_pos.mpr (by norm_num)
+  have hs2 : 7 / 5 < Real.sqrt 2 := by nlinarith
+  refine ⟨Real.sqrt 2 / 2, by nlinarith, ?_, ?_, ?_, ?_, ?_⟩
+  · refine ⟨by norm_num, by norm_num, by linarith, by nlinarith, by nlinarith⟩
+  · exact ⟨by norm_num, by norm_num⟩
+  · norm_num [P3.nsq, P3.dot]
+  · norm_num [P3.dot, P3.sub]
+  · norm_num [P3.nsq, P3.dot, P3.sub]
+
+/-- the executable side (over ℚ no `h` has `2h² = 1`; the driver runs with the float witness of cos π/4 and a 1e-9 tolerance):
+    FourCoreDisk's shell from the source is faces 4 … 11, and the executable `rimShell` with the float witness of cos π/4 finds
+    the eight outer positions and the same faces on a placed instance -/
+example : (sketchFromSource "FourCoreDisk").map (·.shell) = some [4, 5, 6, 7, 8, 9, 10, 11] ∧
+    (lookup "FourCoreDisk" CBV.Gen.c19QuadMaps).map (fun q =>
+      rimShell .fourCore q ⟨1, 2, 3⟩ ⟨1, 4, 3⟩ ⟨0, 0, 1⟩ (7071067811865476 / 10000000000000000) (4 / 5) (9 / 10))
+      = some ([9, 10, 11, 12, 13, 14, 15, 16], [4, 5, 6, 7, 8, 9, 10, 11]) := by decide +kernel
+
+end rim
 
 /-! ### round sketches and shapes: `decide` on the tables generated from the current source -/
 
